@@ -336,6 +336,9 @@ fn check_delta(c: &DeltaCase, obs: &mut Obs) -> Verdict {
         Err(e) => return Verdict::Fail(format!("the reference reader rejects the emitted mappings {mappings:?}: {e:?}")),
     };
     let got: Vec<(u32, u32, u32, u32)> = dec.tokens.iter().map(|t| (t.dl, t.dc, t.src.as_ref().map(|s| s.line).unwrap_or(!0), t.src.as_ref().map(|s| s.col).unwrap_or(!0))).collect();
+    // (whether the encoder drops an exact duplicate is its choice - C01 allows, does not demand it)
+    let mut got = got;
+    got.dedup();
     let mut want = vec![(0, t1.dst_col, t1.src_line, t1.src_col), (0, t2.dst_col, t2.src_line, t2.src_col)];
     want.dedup();
     if dec.out_of_u32 || got != want {
